@@ -359,6 +359,10 @@ func genC06base(t *rapid.T) C06Case {
 	}
 	switch mode {
 	case 0: // long scalar arrays over small alphabets
+		if gen.Chance(t, "codeTwins", 3) {
+			a, b := twinArrays(t)
+			return C06Case{A: val.JSON(a), B: val.JSON(b), Wrap: wrap}
+		}
 		alpha := gen.Int(t, "alpha", 2, 6)
 		n := gen.Int(t, "n", 0, 30)
 		if gen.Chance(t, "long", 8) {
